@@ -8,3 +8,5 @@ open Pynenc.C06
 #print axioms blocked_outcome
 #print axioms blocked_retry_raises
 #print axioms poll_raises_on_blocked_retry
+#print axioms pollB_nil
+#print axioms awaited_same_key_claimed_once
